@@ -431,7 +431,10 @@ def _(Hh, rng):
 
 
 def has_blocks(a):
-    return all(l.block_number > 0 for l in a.legs)   # LegPipe of a leg without blocks raises (np.concatenate([]))
+    # LegPipe of a leg without blocks raises (np.concatenate([])); combine_legs names anonymous legs '?<index>', which
+    # collides with a '?<index>' label left on a non-combined leg by an earlier combine_legs (labels: C01's subject)
+    lab = [(l if l is not None else '?' + str(i)) for i, l in enumerate(a._labels)]
+    return all(l.block_number > 0 for l in a.legs) and len(set(lab)) == len(lab)
 
 
 @g('sort_legcharge')
@@ -725,14 +728,19 @@ def _(Hh, rng):
     r = a.rank
     bad = rng.choice([r, r, r + 1, -r - 1])
     st = _malformed(Hh, rng, n, a, r, bad)
-    if bad == r:
+    if st is not None and bad == r and 'tag' not in st:
         st['tag'] = 'axis-eq-rank'
     return st
 
 
 def _malformed(Hh, rng, n, a, r, bad):
     kind = rng.choice(['iproject', 'iswapaxes', 'itranspose', 'take_slice', 'iscale_axis', 'squeeze', 'gauge', 'permute',
-                       'extend', 'trace', 'setitem', 'iproject2'])
+                       'extend', 'trace', 'setitem', 'iproject2', 'take_slice_dup'])
+    if kind == 'take_slice_dup':
+        if r < 2 or any(x == 0 for x in a.shape):
+            return None
+        ax = rng.randrange(r)
+        return dict(op='take_slice', a=n, out=Hh.fresh(), indices=[0, 0], axes=[ax, ax], expect='error', tag='duplicate-axes')
     if kind == 'iproject':
         ax = rng.randrange(r)
         return dict(op='iproject', a=n, masks=[gen_mask(rng, int(a.shape[ax])), gen_mask(rng, int(a.shape[ax]))],
